@@ -4,6 +4,7 @@ Every builder takes a numpy Generator and returns a Problem dict (see gen.py)
 plus a small 'features' dict used for coverage tags and non-triviality keys.
 All randomness comes from the rng, so (seed, index) reproduces a case.
 """
+import copy
 import math
 import numpy as np
 from vmon import gen
@@ -195,6 +196,8 @@ def single_assembly(rng, tdep=None, gap=None, lf=None, regions=None,
             'axial': [float(x) for x in rng.uniform(0.2, 1.5, nc)]}
     if nc > 1 and rng.random() < 0.3:
         spec['zero_cells'] = [int(rng.integers(nc))]
+    if nc > 1 and 1 in comps and len(comps) > 1 and rng.random() < 0.3:
+        spec['zero_pin_cells'] = [int(rng.integers(nc))]
     gen.add_position(P, 'a', 1, 1, velocity=v, dT=dT, shape=shape,
                      bc=(bc or 'flowrate'), **spec)
     feats['coolant'] = P['coolant']
@@ -393,3 +396,69 @@ def add_spacer_grid(rng, P, tname, dyadic=False, modes=('loss', 'REH', 'CDD')):
         sg['solidity'] = float(rng.uniform(0.1, 0.5))
     t['SpacerGrid'] = sg
     return sorted(zs)
+
+
+def in_inches(P, snap=0.5, hostile=True):
+    """The same problem written with lengths in inches, the way a user would
+    write it: core height and axial-region bounds are multiples of `snap`
+    inch (their SI values are whatever DASSH's own x*2.54/100 makes of
+    them, which is not always the correctly rounded product). Returns None
+    when snapping would merge two bounds."""
+    from vmon.oracle import c17_units as U
+
+    def si(x_in):
+        return x_in * 2.54 / 100.0
+
+    def g(x, inner=True):
+        c0 = round(x / 0.0254 / snap) * snap
+        if hostile and inner:
+            # among the values close by, prefer one whose SI value is not
+            # the 12-digit decimal the axial planes are rounded to
+            # (below it first: a bound just under the plane that ends on it)
+            near = [c0 + d * snap for d in (0, 1, -1, 2, -2, 3, -3, 4, -4)]
+            for below in (True, False):
+                for c in near:
+                    r12 = float(np.around(si(c), 12))
+                    if c > 0 and si(c) != r12 and (si(c) < r12) == below:
+                        return c
+        return c0
+
+    P = copy.deepcopy(P)
+    L_in = g(P['length'], inner=False)
+    P['length'] = si(L_in)
+    zbs = [P['power']['zb']] + [sp['zb'] for sp in P['power']['asm'].values()
+                                if 'zb' in sp]
+    for zb in zbs:
+        zb[-1] = P['length']
+        if len(zb) > 2 and not zb[-2] < zb[-1] - 1e-3:
+            return None
+    inch = {}
+    for tn, t in P['types'].items():
+        seen = set()
+        for rn, r in t.get('AxialRegion', {}).items():
+            lo = g(r['z_lo'], inner=r['z_lo'] > 0.0)
+            hi = g(r['z_hi']) if r['z_hi'] < P['length'] - 0.02 else L_in
+            if not lo < hi or lo in seen:
+                return None
+            seen.add(lo)
+            inch[(tn, rn)] = (lo, hi)
+            r['z_lo'], r['z_hi'] = si(lo), si(hi)
+        names = sorted(t.get('AxialRegion', {}),
+                       key=lambda n: inch[(tn, n)][0])
+        for a, b in zip(names[:-1], names[1:]):
+            if inch[(tn, a)][1] > inch[(tn, b)][0]:
+                return None
+        if names:
+            # a pin bundle must remain between the lower and upper regions
+            lo_top = max([inch[(tn, n)][1] for n in names
+                          if n.startswith('lo')] + [0.0])
+            up_bot = min([inch[(tn, n)][0] for n in names
+                          if n.startswith('up')] + [L_in])
+            if not lo_top < up_bot:
+                return None
+    Q = U.convert_problem(P, U.Units(length='in'))
+    Q['length'] = L_in
+    for (tn, rn), (lo, hi) in inch.items():
+        Q['types'][tn]['AxialRegion'][rn]['z_lo'] = lo
+        Q['types'][tn]['AxialRegion'][rn]['z_hi'] = hi
+    return Q
